@@ -3,6 +3,7 @@ CONSTANTS
   Cmds = {"version", "getPubKey", "sign_hash", "sign_legacy", "sign_segwit", "advanceBlockchain", "updateAncestorBlock", "resetAdvanceBlockchain", "blockchainState", "blockchainParameters", "signerHeartbeat", "uiHeartbeat"}
   MaxConnFail = 2
   NInit = 4
+  BTimeouts = {0, 2, 3, 4}
   DevErrAbs = 905
 CHECK_DEADLOCK FALSE
 INVARIANT NoViolation
